@@ -1242,6 +1242,29 @@ func (f *FS) FlipByte(name string, off int64, mask byte) error {
 	return nil
 }
 
+// Resize alters a stored file's length: delta > 0 appends that many bytes (a fixed pattern), delta < 0 cuts the tail.
+func (f *FS) Resize(name string, delta int) error {
+	f.mu.Lock()
+	defer f.mu.Unlock()
+	n, err := f.lookup(clean(name))
+	if err != nil {
+		return perr("resize", name, err)
+	}
+	if n.dir || delta == 0 || len(n.data)+delta < 0 {
+		return perr("resize", name, syscall.EINVAL)
+	}
+	d := append([]byte(nil), n.data...)
+	if delta > 0 {
+		for i := 0; i < delta; i++ {
+			d = append(d, byte(0xA5^i))
+		}
+	} else {
+		d = d[:len(d)+delta]
+	}
+	n.data = d
+	return nil
+}
+
 // Tree returns a sorted, human-readable listing ("path size" per file, "path/" per directory) below root.
 func (f *FS) Tree(root string) []string {
 	f.mu.Lock()
